@@ -97,6 +97,31 @@ def main() -> int:
         merged["inconclusive"] += d["inconclusive"]
         merged["harness_errors"] += d["harness_errors"]
         merged["evaluations"] += d["evaluations"]
+    # ---- soak workload: the repository's own tests under the monitors (thorough tier, properties that opt in) ----
+    if tier == "thorough" and only is None and getattr(mod, "SOAK", False):
+        root = bootstrap.repo_root()
+        if os.path.isdir(os.path.join(root, "tests")):
+            outf = os.path.join(tmp, "soak.jsonl")
+            env = dict(os.environ, VMON_SOAK_OUT=outf,
+                       PYTHONPATH=os.pathsep.join([os.path.join(root, "pulser-core"), os.path.join(root, "pulser-simulation"),
+                                                   VERIF, bootstrap.DEPS]))
+            try:
+                pr = subprocess.run([sys.executable, "-m", "pytest", "tests", "-n", "8", "-q", "-p", "no:cacheprovider",
+                                     "-p", "vmon.pytest_plugin"], cwd=root, env=env, capture_output=True, text=True,
+                                    timeout=1500)
+                merged["counters"]["soak_pytest_exit"] = pr.returncode
+            except subprocess.TimeoutExpired:
+                merged["inconclusive"].append("soak: pytest watchdog fired")
+            if os.path.exists(outf):
+                for ln in open(outf):
+                    d = json.loads(ln)
+                    merged["counters"]["soak_api_events"] += d["events"]
+                    merged["violations"] += [v for v in d["violations"] if v["property"] == pid]
+                    for k2, v2 in d["counters"].get(pid, {}).items():
+                        if k2.startswith("violation:"):
+                            merged["counters"][k2] += v2
+        else:
+            merged["counters"]["soak_skipped_no_tests_dir"] = 1
     subprocess.run(["rm", "-rf", tmp])
     wall = time.monotonic() - t0
 
